@@ -66,6 +66,7 @@ def run(m: Model, r: Report, tier: str) -> None:
     r.rule("R7", "disconnect drains before closing: unbounded join() < cancel() < connection.close(); one FIFO consumer task", floor=5)
     r.rule("R8", "rows are written iff implicit logging is on and a handler exists; emphasized iff 'ANALYZE' tag", floor=3)
     r.rule("R9", "byte strings are stored through a non-truncating representation; the logged request object re-serialises to the transmitted bytes", floor=6)
+    r.rule("R11", "the stored reply is response.pdu: it equals the received bytes because every response class re-serialises byte-identically (C02.R1 / R4 obligations)", floor=1)
     r.rule("R10", "a scanner's implicit-logging setting reaches the ECU object before the first request of setup()", floor=1)
 
     req = m.require_function(f"{ECU}.ECU._request")
@@ -360,6 +361,25 @@ def run(m: Model, r: Report, tier: str) -> None:
 
     # ---------------------------------------------------------------- R9
     request_roundtrip_guard(m, r, "R9")
+    from sa.uds_rules import client_helpers_forward_config
+    if client_helpers_forward_config(m, r, "R8") < 30:
+        raise AnalysisError("UDSClient service helpers with a config parameter not found")
+    # the reply column holds response.pdu, i.e. the re-serialisation of the parsed reply: it equals the wire bytes iff the response codec is byte-identical
+    # (the obligations of C02.R1 / R4, evaluated by the same engine; its known dict-dedup finding C02.R5 is a different rule and stays with C02)
+    from checks import c02 as _c02
+    sub = Report("C02", tier, "")
+    try:
+        _c02.run(m, sub, tier)
+    except AnalysisError as e_:
+        if not any(v_["rule"] in ("R1", "R4") for v_ in sub.violations):
+            raise AnalysisError(f"response codec analysis (C02 engine) stopped: {e_}")
+    n_sub = sum(1 for o_ in sub.obligations if o_["rule"] in ("R1", "R4"))
+    if n_sub < 60:
+        raise AnalysisError(f"only {n_sub} response codec obligations evaluated")
+    for v_ in sub.violations:
+        if v_["rule"] in ("R1", "R4"):
+            r.check(False, "R11", f"response-codec:{v_['construct']}", "the recorded reply bytes differ from the wire: " + v_["message"][:500], loc=v_["loc"])
+    r.ok("R11", "response-codec", f"{n_sub} W∘R obligations of the response classes hold")
     n9 = 0
     for n in ast.walk(hins.node):
         if isinstance(n, ast.Call) and ast.unparse(n.func).split(".")[-1].startswith("bytes_repr") and n.args:
